@@ -3,7 +3,7 @@
 From Coq Require Import List Arith NArith ZArith Bool Lia.
 From RecordUpdate Require Import RecordSet.
 From SV Require Import Base.Base IR.State IR.NS IR.Ops Xform.Clone Proofs.InvW Proofs.CloneFrame Proofs.CloneStart Proofs.CloneFull
-  Proofs.CloneNetInv Proofs.Locality Proofs.LocalityStep Proofs.LocalityHist Proofs.LocalityClone.
+  Proofs.CloneNetInv Proofs.Locality Proofs.LocalityStep Proofs.LocalityHist Proofs.LocalityClone Proofs.LocalityOrig Proofs.XHistAll.
 Import ListNotations RecordSetNotations.
 
 Theorem netlist_clone_copy_region_closed ops n :
@@ -28,3 +28,32 @@ Qed.
 (* the same for the frame-and-closure clone of ANY kind of root, given the invariant of the state after
    the clone (C07_clone_any_keeps_invariant) - stated for the netlist root above because the running
    invariant CI is exported for that root only *)
+
+Lemma g_run ops : forall s, XHistAll.G s -> XHistAll.G (run ops s).
+Proof. induction ops as [|o ops IH]; intros s Gs; cbn; [exact Gs|]. apply IH. apply XHistAll.g_step. exact Gs. Qed.
+
+Theorem netlist_clone_orig_region_closed ops n :
+  let s := run ops init in
+  let sF := fst (fst (clone_netlist s n)) in
+  kind_of s n = Some KNetlist -> Closed s n -> snd (fst (clone_netlist s n)) = None ->
+  norefb (next s) (next sF) sF = true ->
+  RClosed (orig_region (next s) (next sF)) sF.
+Proof.
+  intros s sF Hk Hc Hok Hn. destruct (clone_netlist_ci s n (reachable_startok ops)) as [m C].
+  pose proof (g_run ops init XHistAll.g_init) as Gs. fold s in Gs.
+  assert (GF : XHistAll.G sF).
+  { pose proof (XHistAll.g_clone_any s n Gs) as H. unfold clone_any in H. rewrite Hk in H. apply H; [intros _; exact Hc|exact Hok]. }
+  destruct Gs as [Us [_ [_ TKs]]]. destruct GF as [UF' _].
+  apply (orig_region_closed s sF m Us TKs UF' C). apply norefb_ok. exact Hn.
+Qed.
+
+Theorem netlist_clone_orig_edits_independent ops n h :
+  let s := run ops init in
+  let sF := fst (fst (clone_netlist s n)) in
+  kind_of s n = Some KNetlist -> Closed s n -> snd (fst (clone_netlist s n)) = None ->
+  norefb (next s) (next sF) sF = true ->
+  Forall (op_in (orig_region (next s) (next sF))) h ->
+  out_eq (orig_region (next s) (next sF)) sF (run h sF) /\ RClosed (orig_region (next s) (next sF)) (run h sF).
+Proof.
+  intros s sF Hk Hc Hok Hn H. apply (history_independent _ sF h (netlist_clone_orig_region_closed ops n Hk Hc Hok Hn) H).
+Qed.
